@@ -453,7 +453,7 @@ def validate_lines(work, lines, tag, spans=False, timeout=900, per_shard=2500, m
     if n == 0:
         return [], stats
     size = sum(len(l) for l in lines)
-    shards = max(1, min(vc.NCPU if size < (400 << 20) else 3 * vc.NCPU, max(n // per_shard, size // (12 << 20)) + 1))
+    shards = max(1, min(vc.NCPU if size < (400 << 20) else 3 * vc.NCPU, max(n // per_shard, size // (12 << 20), min(vc.NCPU, size // (1 << 20))) + 1))
     bounds = [(i * n // shards, (i + 1) * n // shards) for i in range(shards)]
     verdicts = [None] * n
     counter = itertools.count()
@@ -646,17 +646,23 @@ class Checker:
             vc.log("  %-15s %7d cases  wall %6.1fs  cpu %6.1fs" % (family, len(cases), time.time() - t0, sum(os.times()[:4]) - c0))
 
     def _run_family(self, family, cases, spans, noast, timeout, mode):
-        for i, c in enumerate(cases):
-            c["id"] = i
-        lines = harness(self.work, self.vh, cases, family, noast=noast)
-        verdicts, stats = validate_lines(self.work, lines, family, spans=spans, timeout=timeout, mode=mode)
-        self.rep.add_tlc(stats)
-        recs = []
-        for line, v in zip(lines, verdicts):
-            rec = light(line)
-            recs.append(rec)
-            self.classify(rec, v, family)
-        self.rep.cov.setdefault("families", {})[family] = self.rep.cov.get("families", {}).get(family, 0) + len(cases)
+        recs, verdicts = [], []
+        chunk = 150000
+        for lo in range(0, len(cases), chunk):
+            part = cases[lo:lo + chunk]
+            for i, c in enumerate(part):
+                c["id"] = lo + i
+            lines = harness(self.work, self.vh, part, family, noast=noast)
+            vs, stats = validate_lines(self.work, lines, family, spans=spans, timeout=timeout, mode=mode)
+            self.rep.add_tlc(stats)
+            for line, v in zip(lines, vs):
+                rec = light(line)
+                self.classify(rec, v, family)
+                if spans:
+                    recs.append(rec)
+                    verdicts.append(v)
+        fam = self.rep.cov.setdefault("families", {})
+        fam[family] = fam.get(family, 0) + len(cases)
         return recs, verdicts
 
     def settle(self):
